@@ -13,6 +13,7 @@ import (
 	stakingtypes "github.com/cosmos/cosmos-sdk/x/staking/types"
 
 	bandtesting "github.com/bandprotocol/chain/v3/testing"
+	feedsmod "github.com/bandprotocol/chain/v3/x/feeds"
 	feedskeeper "github.com/bandprotocol/chain/v3/x/feeds/keeper"
 	feedstypes "github.com/bandprotocol/chain/v3/x/feeds/types"
 
@@ -225,6 +226,11 @@ func e2eCase(app *fx.App, tr *fx.Trace, r *fx.Rng) {
 			val, err := sk.GetValidator(ctx, v.ValAddress)
 			fx.Must(err)
 			amt := sdkmath.NewInt(int64(r.PickInt(1, 1000, 1_000_000, 50_000_000)))
+			if r.Chance(1, 8) {
+				// a validator whose tokens do not fit a signed 64-bit integer (they do fit the uint64 power)
+				amt = sdkmath.NewIntFromUint64(1 << 63).AddRaw(int64(r.PickInt(0, 1, 1000)))
+				tr.Tag("power-above-2^63")
+			}
 			app.Fund(ctx, bandtesting.FeePayer.Address, "uband", amt)
 			_, err = sk.Delegate(ctx, bandtesting.FeePayer.Address, amt, stakingtypes.Unbonded, val, true)
 			fx.Must(err)
@@ -312,7 +318,23 @@ func e2eCase(app *fx.App, tr *fx.Trace, r *fx.Rng) {
 	tbt, err := sk.TotalBondedTokens(ctx)
 	fx.Must(err)
 	quorum := sdkmath.LegacyNewDecFromInt(tbt).Mul(sdkmath.LegacyMustNewDecFromStr(params.PriceQuorum)).TruncateInt()
-	errS := fx.Try(func() error { return fk.CalculatePrices(ctx) })
+	var errS string
+	if r.Chance(1, 3) {
+		// the whole end-blocker on a block where the current feed list is recomputed: the signal totals are set so that the
+		// new list differs from the old one (other signals, other intervals); the end-of-block prices are those of the NEW
+		// list (the list this block publishes), with the new intervals deciding which validator prices are fresh
+		ctx = ctx.WithBlockHeight(params.CurrentFeedsUpdateInterval * int64(r.Range(1, 3)))
+		for _, id := range []string{"CS:A", "CS:B", "CS:C", "CS:D"} {
+			if r.Chance(2, 3) {
+				fk.SetSignalTotalPower(ctx, feedstypes.NewSignal(id, params.PowerStepThreshold*int64(r.PickInt(1, 2, 10, 60, 3000))))
+			}
+		}
+		feeds = fk.CalculateNewCurrentFeeds(ctx)
+		tr.Tag("end-block-with-feed-update")
+		errS = fx.Try(func() error { return feedsmod.EndBlocker(ctx, fk) })
+	} else {
+		errS = fx.Try(func() error { return fk.CalculatePrices(ctx) })
+	}
 	for _, f := range feeds {
 		p := fk.GetPrice(ctx, f.SignalID)
 		out := fx.M{"err": "", "status": int(p.Status), "price": fx.U(p.Price)}
